@@ -344,6 +344,10 @@ def oracle(c, r):
         want = 0 if dd > c0[2] + 1e-9 else (2 if dd < c0[2] - 1e-9 else None)
         if want is not None and len(r["ts"]) != want:
             yield ("line-count", "%d line/circle intersections, distance to centre %r, radius %r" % (len(r["ts"]), dd, c0[2]))
+        # a line constructed tangent (its distance from the centre is the radius up to rounding, on either side) meets the circle once:
+        # the documented band of 1e-10 around tangency exists to absorb exactly that rounding
+        if abs(dd - c0[2]) <= 1e-13 * max(1.0, c0[2]) and len(r["ts"]) != 1:
+            yield ("line-tangent", "a tangent line (distance to the centre %r, radius %r) meets the circle in %d points" % (dd, c0[2], len(r["ts"])))
         for q in r["pts"]:
             t = ((q[0] - a[0]) * dv[0] + (q[1] - a[1]) * dv[1]) / (dv[0] ** 2 + dv[1] ** 2)
             if not (-1e-9 <= t <= 1 + 1e-9) or not on_circle(q, c0, 2e-5):
